@@ -7,6 +7,12 @@ open descriptors, pgid written to a file), with one system call forced to fail o
 (sc-shim handler state is inherited across fork); every process that comes back out of spawn leaves a marker.  The model
 predicts (result, who returned, exec happened, child reaped) from (configuration, fault) alone.
 Judge: the property itself on the measured run.
+Respawn dimension: `spawn` is `&mut self`, one Command may be spawned from any number of times.  A configuration
+`<stage0>/<stage1>/...` is ONE Command: stage k>0 = further builder calls made after spawn k-1 ('-' = none), then spawn k;
+`x<n>` = n spawns in all, `fr<i>` = the fault list hits spawn i (the others run fault-free).  Every spawn is measured and
+judged on its own by the same oracle (the configuration in force is what all builder calls SO FAR ask for) and compared
+with the model's `runStages` (Props: spawn_preserves_config, respawn_same_child, respawn_after_failed_spawn,
+respawn_round_depends_only_on_calls_and_own_faults, respawn_interleaved).
 """
 import json
 
@@ -15,6 +21,15 @@ from . import common as C
 CONFIGS = ["-", "a1", "a3,e2", "a5,e3,twice", "e4", "cwd", "uid,gid", "pg", "cl2", "cwd,uid,gid,pg,cl2", "io=nnn", "io=ppp", "io=npi",
            "io=iri", "io=pnr", "io=iio", "io=iei", "io=nio", "io=neo", "a2,e1,cwd,pg,cl1,io=npr", "nobin", "nobin,io=ppp,cwd", "clf13", "cl1,clf5,cwd", "clu", "io=pip,clu"]
 THOROUGH_EXTRA = ["a9,e7,twice,cwd,uid,gid,pg,cl3,io=ppn", "io=rii", "io=iir", "io=nip,uid", "io=pin,gid,cl1", "a1,e1,io=inn", "twice", "a4,twice,e1"]
+# one Command spawned from repeatedly (see the module doc).  No stream given as RawFd (r, o, e) is carried into a later
+# spawn without being set again: the first spawn closes the caller's descriptor (known finding C12 spawn_rawfd_late —
+# whether RawFd lends or gives the descriptor is undecided), so such a respawn has no defined expectation.
+RESPAWN = ["-,x2", "io=nnn,x2", "io=ppp,x3", "io=npi,x3", "io=pIn,x2", "io=inp/-/-", "a2,e2,cwd,pg,cl2,io=npi,x3", "uid,gid,cl1,x2",
+           "a1/a1/a2", "e1/e2", "a2,e1,twice/a3,e2,twice", "-/io=.p.", "io=npi/io=I.n", "io=ppp/a1,e1,cl1/cwd,io=n..", "io=n../io=.n./io=..n",
+           "io=pnp/io=npn/-", "cl2/cl1/pg", "-/cwd/-", "io=iri/io=.r.", "io=nio/io=..o", "io=iei/io=.e./a1", "nobin,x2", "nobin,io=pnp/a1",
+           "clf13,x2", "io=npi/clf5/-", "cl1,io=pip/clu", "io=nnn/cl1/cl1/cl1"]
+RESPAWN_THOROUGH = ["io=ppp,x8", "a3,e3,cwd,uid,gid,pg,cl3,io=pnp,x4", "io=npi/io=pin/io=inp/io=ppp/io=III", "a1/e1/a1/e1/a1/e1", "io=rrr/io=rrr",
+                    "io=pnp/io=r../io=r../io=I..", "cl1/clf9/cl1", "e3,twice/-/e2"]
 PARENT_ERRNOS = [4, 11, 12, 24, 13, 5]
 CHILD_ERRNOS = [9, 13, 1]
 SYS_OF_FLAG = [("cwd", "chdir"), ("uid", "setuid"), ("gid", "setgid"), ("pg", "setpgid")]
@@ -33,43 +48,139 @@ def names(tr):
     return [] if tr == "-" else [t.split(":")[0] for t in tr.split(",")]
 
 
-class Cfg:
-    def __init__(self, s):
-        self.s = s
-        t = [x for x in s.split(",") if x and x != "-"]
-        self.flags = {f: f in t for f, _ in SYS_OF_FLAG}
-        self.io = "iii"
-        self.cl = 0
-        self.clf = None
-        self.clu = "clu" in t
-        self.nobin = "nobin" in t
-        self.twice = "twice" in t
+class Round:
+    """the configuration in force at one spawn: what all builder calls made so far ask for"""
+
+    def __init__(self, s, index, nrounds):
+        self.s = s          # the whole configuration string (signature)
+        self.index = index
+        self.nrounds = nrounds
+        self.flags = {f: False for f, _ in SYS_OF_FLAG}
+        self.io = ["i", "i", "i"]   # effective: i (never set) I n p r o e
+        self.cls = []               # closures in registration order: "ok" | errno (int) | None (fails without errno)
+        self.nobin = False
+        self.twice = False
         self.nargs = self.nenv = 0
-        for x in t:
-            if x.startswith("io="):
-                self.io = x[3:]
-            elif x.startswith("clf"):
-                self.clf = int(x[3:])
-            elif x.startswith("cl") and x != "clu":
-                self.cl = int(x[2:])
-            elif x[0] == "a" and x[1:].isdigit():
-                self.nargs = int(x[1:])
-            elif x[0] == "e" and x[1:].isdigit():
-                self.nenv = int(x[1:])
-        self.streams = [i for i, c in enumerate(self.io) if c != "i"]
-        self.sys_steps = ["dup3"] * len(self.streams) + [n for f, n in SYS_OF_FLAG if self.flags[f]]
-        self.closures = self.cl + (1 if self.clf is not None else 0) + (1 if self.clu else 0)
+        self.stage_tokens = []      # model tokens of this stage's builder calls
+        self.stale_raw = False
+
+    @property
+    def streams(self):
+        return [i for i, c in enumerate(self.io) if c not in "iI"]
+
+    @property
+    def sys_steps(self):
+        return ["dup3"] * len(self.streams) + [n for f, n in SYS_OF_FLAG if self.flags[f]]
+
+    @property
+    def closures(self):
+        return len(self.cls)
 
     def natural_child_fault(self):
         """(step index, errno|None) of the failure the configuration itself causes, if any"""
         n = len(self.sys_steps)
-        if self.clf is not None:
-            return (n + self.cl, self.clf)
-        if self.clu:
-            return (n + self.cl, None)
+        for i, k in enumerate(self.cls):
+            if k != "ok":
+                return (n + i, k)
         if self.nobin:
             return (n + self.closures, 2)
         return None
+
+    def want_pipes(self):
+        return "".join("1" if c == "p" else "0" for c in self.io)
+
+    def model_io(self):
+        return "".join({"I": "i", "o": "r", "e": "r"}.get(c, c) for c in self.io)
+
+
+class Cfg:
+    """`<stage0>/<stage1>/...`: one Command; .rounds[k] = the configuration in force at spawn k"""
+
+    def __init__(self, s):
+        import copy
+        self.s = s
+        self.fr = 0
+        stages = s.split("/")
+        toks0 = [x for x in stages[0].split(",") if x and x != "-"]
+        for x in toks0:
+            if x[0] == "x" and x[1:].isdigit():
+                stages += ["-"] * (int(x[1:]) - 1)
+            elif x.startswith("fr") and x[2:].isdigit():
+                self.fr = int(x[2:])
+        self.rounds = []
+        cur = Round(s, 0, len(stages))
+        for k, st in enumerate(stages):
+            cur = copy.deepcopy(cur)
+            cur.index = k
+            cur.stale_raw = False
+            t = [x for x in st.split(",") if x and x != "-"]
+            nargs = nenv = cl = 0
+            clf = "no"
+            clu = twice = False
+            io = "..."
+            for x in t:
+                if x in cur.flags:
+                    cur.flags[x] = True
+                elif x == "clu":
+                    clu = True
+                elif x == "nobin":
+                    cur.nobin = True
+                elif x == "twice":
+                    twice = True
+                elif x.startswith("io="):
+                    io = x[3:]
+                elif x.startswith("clf"):
+                    clf = int(x[3:])
+                elif x.startswith("cl"):
+                    cl = int(x[2:])
+                elif x.startswith("fr") or x[0] == "x":
+                    pass
+                elif x[0] == "a" and x[1:].isdigit():
+                    nargs = int(x[1:])
+                elif x[0] == "e" and x[1:].isdigit():
+                    nenv = int(x[1:])
+                else:
+                    raise ValueError("bad token " + x)
+            # model tokens: the two fixed arguments (--dump <file>) are a1 a2, the extra ones a3.., variables e100..
+            mt = ["a1", "a2"] if k == 0 else []
+            extra = [3 + cur.nargs + i for i in range(nargs)]
+            envs = [100 + cur.nenv + j for j in range(nenv)]
+            if twice:
+                h, g = len(extra) // 2, len(envs) // 2
+                mt += ["A" + ".".join(map(str, extra[:h])), "E" + ".".join(map(str, envs[:g])),
+                       "A" + ".".join(map(str, extra[h:])), "E" + ".".join(map(str, envs[g:]))]
+            else:
+                mt += ["a%d" % a for a in extra] + ["e%d" % e for e in envs]
+            cur.nargs += nargs
+            cur.nenv += nenv
+            cur.twice = twice
+            mt += [f for f, _ in SYS_OF_FLAG if f in t]
+            mt += ["cl"] * (cl + (clf != "no") + clu)
+            cur.cls += ["ok"] * cl + ([clf] if clf != "no" else []) + ([None] if clu else [])
+            for i, c in enumerate(io):
+                if c in "Inproe":
+                    cur.io[i] = c
+                    mt.append("s%s=%s" % ("ioe"[i], {"o": "r", "e": "r"}.get(c, c)))
+                elif cur.io[i] in "roe" and k > 0:
+                    cur.stale_raw = True   # a RawFd the previous spawn has taken over
+            cur.stage_tokens = mt
+            self.rounds.append(cur)
+        if self.fr >= len(self.rounds):
+            raise ValueError("fault round out of range")
+        r0 = self.rounds[0]
+        # single-spawn view (the fields the one-spawn streams use)
+        self.flags, self.io, self.nobin, self.twice, self.nargs, self.nenv = r0.flags, "".join(r0.io), r0.nobin, r0.twice, r0.nargs, r0.nenv
+        self.streams, self.sys_steps, self.closures = r0.streams, r0.sys_steps, r0.closures
+
+    def natural_child_fault(self):
+        return self.rounds[0].natural_child_fault()
+
+    def with_fault_round(self, r):
+        if r == 0:
+            return self.s
+        st = self.s.split("/")
+        st[0] = (st[0] + "," if st[0] not in ("", "-") else "") + "fr%d" % r
+        return "/".join(st)
 
 
 def classify(cfg, fault, base):
@@ -123,16 +234,66 @@ def model_line(cfg, m):
                cfg.closures, m["before"], m["eintr"], m["readerr"], m["waiterr"], cfs))
 
 
+def ncl_of(cls):
+    """closure marks -> how many closures the child called; they must be 0,1,2,.. in registration order, each once"""
+    if cls == "-":
+        return "0"
+    ids = cls.split(".")
+    return str(len(ids)) if ids == [str(i) for i in range(len(ids))] else "bad:" + cls
+
+
 def canon_model(mo):
     d = parse(mo)
     stray = "zombie" if d["reaped"] == "0" else "none"
-    return "res=%s returned=%d execd=%d stray=%s" % (d["parent"], 1 if d["returners"] == "2" else 0, 1 if d["child"] == "execd" else 0, stray)
+    return "res=%s returned=%d execd=%d stray=%s ncl=%s" % (d["parent"], 1 if d["returners"] == "2" else 0, 1 if d["child"] == "execd" else 0, stray, d["ncl"])
 
 
 def canon_impl(o):
     d = parse(o)
     stray = "none" if d["stray"] == "none" else "zombie"
-    return "res=%s returned=%s execd=%d stray=%s" % (d["res"], d["returned"], 0 if d["img"] == "none" else 1, stray)
+    return "res=%s returned=%s execd=%d stray=%s ncl=%s" % (d["res"], d["returned"], 0 if d["img"] == "none" else 1, stray, ncl_of(d["cls"]))
+
+
+def canon_model_round(mo):
+    """one round of the `respawn` op: additionally the image's streams / vectors and the pipe ends handed out"""
+    d = parse(mo)
+    out = canon_model(mo)
+    if d["child"] == "execd":
+        out += " io=%s argv=%s envp=%s" % (d["io"], d["argv"], d["envp"])
+    if d["parent"] == "ok":
+        out += " pipes=%s" % d["pipes"]
+    return out
+
+
+def canon_impl_round(rc, o):
+    d = parse(o)
+    out = canon_impl(o)
+    if d["img"] != "none":
+        # observed streams in the model's alphabet: the caller's own stdout/stderr given as RawFd is a RawFd
+        sio = ""
+        for i, (c, k) in enumerate(zip(rc.io, d["sio"])):
+            want = {"I": "i"}.get(c, c)
+            if (c == "o" and i == 1) or (c == "e" and i == 2):
+                want = "i"
+            if k == "q" and d["res"] != "ok":
+                k = "p"   # spawn returned Err (no Child, no pipe end to compare with) although the image ran: some pipe
+            sio += "r" if c in "oe" and k == want else k
+        a, e = d["seen"].split("/")
+        argv = ".".join(str(int(x) + 1) if x.isdigit() else x for x in a.split(".")) + ".0"
+        envp = "0" if e == "." else ".".join(str(int(x) + 101) if x.isdigit() else x for x in e.split(".")) + ".0"
+        out += " io=%s argv=%s envp=%s" % (sio, argv, envp)
+    if d["res"] == "ok":
+        out += " pipes=%s" % d["pipes"]
+    return out
+
+
+def respawn_line(cfg, ms):
+    st = []
+    for rc, m in zip(cfg.rounds, ms):
+        cf = m["cf"]
+        cfs = "-" if cf is None else "%d:%s" % (cf[0], "n" if cf[1] is None else cf[1])
+        st.append(" ".join(rc.stage_tokens + ["before=%s eintr=%d readerr=%s waiterr=%s cf=%s" % (m["before"], m["eintr"], m["readerr"], m["waiterr"], cfs)]))
+    return "respawn fixed=1 start=0 " + " / ".join(st)
 
 
 def builder_line(cfg):
@@ -192,6 +353,11 @@ def judge_with(cfg, fault, kinds, m, o):
             return "wait-status: poll=%s wait=%s, again=%s, wait4 calls=%s (expected %s)" % (d.get("pre"), d["status"], d["status2"], d["waits"], want_waits)
         if d["stray"] != "none":
             return "wait-status: wait returned but the child was not reaped (%s)" % d["stray"]
+        if d["pipes"] != cfg.want_pipes():
+            return ("wrong-pipes: Child::stdin/stdout/stderr are Some for %s, MakePipe was configured for %s (streams in force: %s)"
+                    % (d["pipes"], cfg.want_pipes(), "".join(cfg.io)))
+        if ncl_of(d["cls"]) != str(cfg.closures):
+            return "closures: the child called the pre-exec closures %s, %d are registered (each must run once, in order)" % (d["cls"], cfg.closures)
         return None
     # Err
     if not effective:
@@ -214,14 +380,45 @@ def judge_with(cfg, fault, kinds, m, o):
     return None
 
 
-def sig_of(cfg, fault, why):
-    return {"config": cfg.s, "kind": why.split(":")[0], "fault": fault}
+def sig_of(cfg, fault, why, rnd=None):
+    sig = {"config": cfg.s, "kind": why.split(":")[0], "fault": fault}
+    if rnd is not None and len(cfg.rounds) > 1:
+        sig["round"] = rnd
+    return sig
+
+
+def base_key(cs):
+    """the configuration without its fault-round token"""
+    st = cs.split("/")
+    st[0] = ",".join(t for t in st[0].split(",") if not (t.startswith("fr") and t[2:].isdigit())) or "-"
+    return "/".join(st)
+
+
+def judge_case(cs, fault, o, base_rounds):
+    """-> (cfg, [(round cfg, round output, fault of that round, m, kinds, verdict)], whole-case verdict or None)"""
+    cfg = Cfg(cs)
+    if o.startswith("hang"):
+        return cfg, [], "hang: spawn (or a process it left behind) did not finish"
+    if o.startswith("crash") or o == "bad-op" or "=" not in o:
+        return cfg, [], "crash: " + o
+    recs = o.split(" ;; ")
+    rows = []
+    for k, (rc, ro) in enumerate(zip(cfg.rounds, recs)):
+        f = fault if k == cfg.fr else "-"
+        base = (base_rounds[k] if base_rounds and k < len(base_rounds) else None) or parse(ro)
+        m, kinds = classify(rc, f, base)
+        why = None if rc.stale_raw else judge_with(rc, f, kinds, m, ro)
+        rows.append((rc, ro, f, m, kinds, why))
+    whole = None
+    if len(recs) != len(cfg.rounds) and not any(r[5] for r in rows):
+        whole = "crash: %d spawns requested, %d measured" % (len(cfg.rounds), len(recs))
+    return cfg, rows, whole
 
 
 def run_stream(ctx, exe, drv, stream, cases, base_of):
     rc, outs, err = C.run_filter([exe], cases, timeout=1500)
     ctx.evaluations += len(cases)
-    st = ctx.extra.setdefault("streams", {}).setdefault(stream, {"cases": 0, "disagreements": 0, "spec_failures": 0})
+    st = ctx.extra.setdefault("streams", {}).setdefault(stream, {"cases": 0, "spawns": 0, "disagreements": 0, "spec_failures": 0})
     st["cases"] += len(cases)
     if len(outs) != len(cases):
         ctx.violation({"stream": stream, "kind": "harness-died"}, {"rc": rc, "stderr": err[-300:]}, no_input=True)
@@ -229,51 +426,110 @@ def run_stream(ctx, exe, drv, stream, cases, base_of):
     ml, keep = [], []
     for c, o in zip(cases, outs):
         cs, fault = c.split()
-        cfg = Cfg(cs)
-        base = base_of.get(cs) or (parse(o) if "=" in o else {"ptrace": "-"})
-        m, kinds = classify(cfg, fault, base)
-        why = judge_with(cfg, fault, kinds, m, o)
-        if why:
+        cfg, rows, whole = judge_case(cs, fault, o, base_of.get(base_key(cs)))
+        multi = len(cfg.rounds) > 1
+        if whole:
             st["spec_failures"] += 1
-            ctx.violation(sig_of(cfg, fault, why), {"stream": stream, "case": c, "implementation": o, "why": why,
-                                                     "how_to_replay": "echo '%s' | %s" % (c, exe)})
-        if "=" in o:
-            ml.append(model_line(cfg, m))
-            keep.append((c, o, kinds))
+            ctx.violation(sig_of(cfg, fault, whole), {"stream": stream, "case": c, "implementation": o, "why": whole,
+                                                       "how_to_replay": "echo '%s' | %s" % (c, exe)})
+        for rc_, ro, f, m, kinds, why in rows:
+            st["spawns"] += 1
+            if why:
+                st["spec_failures"] += 1
+                if multi:
+                    why = why.split(":")[0] + ": spawn %d of %d from the same Command: %s" % (rc_.index + 1, len(cfg.rounds), why.split(":", 1)[1].strip())
+                ctx.violation(sig_of(cfg, fault, why, rc_.index), {"stream": stream, "case": c, "spawn": rc_.index, "implementation": ro, "why": why,
+                                                                    "all_spawns": o.split(" ;; ") if multi else None,
+                                                                    "how_to_replay": "echo '%s' | %s" % (c, exe)})
+            if rc_.stale_raw:
+                ctx.hist("fault_kinds", "rawfd-carried-over-not-judged")
+        if not rows:
+            continue
+        if not multi:
+            ml.append(model_line(rows[0][0], rows[0][3]))
+            keep.append((c, [rows[0][1]], [rows[0][4]], None))
+        if multi or fault == "-":
+            # the builder-state model: every round against `runStages` (single spawns: the fault-free ones)
+            if not any(r[0].stale_raw or r[5] for r in rows) and len(rows) == len(cfg.rounds):
+                ml.append(respawn_line(cfg, [r[3] for r in rows]))
+                keep.append((c, [r[1] for r in rows], [r[4] for r in rows], cfg))
     rc, mo, err = C.run_filter(drv, ml)
     if len(mo) != len(ml):
         ctx.violation({"stream": stream, "kind": "driver-failed"}, {"stderr": err[-300:]}, no_input=True)
         return outs
-    for (c, o, kinds), l, x in zip(keep, ml, mo):
-        if x == "bad-op" or canon_model(x) != canon_impl(o):
+    for (c, ros, kindss, cfg), l, x in zip(keep, ml, mo):
+        if cfg is None:
+            want = None if x == "bad-op" else [canon_model(x)]
+            got = [canon_impl(ros[0])]
+        else:
+            want = None if x in ("bad-op", "panic") or len(x.split(" / ")) != len(ros) else [canon_model_round(y) for y in x.split(" / ")]
+            got = [canon_impl_round(rc_, ro) for rc_, ro in zip(cfg.rounds, ros)]
+        if want != got:
             st["disagreements"] += 1
-            ctx.extra.setdefault("disagreements", []).append({"case": c, "implementation": o, "model_input": l, "model": x,
-                                                               "model_canon": canon_model(x) if x != "bad-op" else x, "impl_canon": canon_impl(o)})
-        d = parse(o)
-        ctx.count((c.split()[0], tuple(sorted(set(kinds))), d["res"], d["img"].split(":")[0]))
-        ctx.hist("results", d["res"].split(":")[0])
-        for k in kinds or ["no-fault"]:
-            ctx.hist("fault_kinds", k)
+            ctx.extra.setdefault("disagreements", []).append({"case": c, "implementation": ros, "model_input": l, "model": x,
+                                                               "model_canon": want if want is not None else x, "impl_canon": got})
+        if cfg is not None and len(cfg.rounds) == 1:
+            continue   # counted with its `spawn` line
+        for k, (ro, kinds) in enumerate(zip(ros, kindss)):
+            d = parse(ro)
+            ctx.count((c.split()[0], k, tuple(sorted(set(kinds))), d["res"], d["img"].split(":")[0]))
+            ctx.hist("results", d["res"].split(":")[0])
+            for kk in kinds or ["no-fault"]:
+                ctx.hist("fault_kinds", kk)
+            if cfg is not None:
+                ctx.hist("respawn_round", "spawn#%d" % (k + 1))
     return outs
 
 
+def fault_cases(config, b, parent_errnos, child_errnos):
+    """every single fault of one spawn, from its fault-free traces"""
+    out = []
+    pn = names(b["ptrace"])
+    jf = pn.index("fork") if "fork" in pn else len(pn) - 1
+    for k in range(0, min(jf + 3, len(pn))):
+        for e in parent_errnos:
+            out.append("%s %d:e%d" % (config, k, e))
+        if pn[k] == "read":
+            out.append("%s %d:v3" % (config, k))
+    cn = [n for n in names(b["ctrace"]) if n not in ("exit", "returned")]
+    # `execve:?,execve:e2` (it came back) is one call
+    dedup = [n for i, n in enumerate(cn) if not (i > 0 and n == "execve" and cn[i - 1] == "execve")]
+    for k, n in enumerate(dedup):
+        if n == "write":
+            continue
+        for e in child_errnos + ([2] if n == "execve" else []):
+            out.append("%s c%d:e%d" % (config, k, e))
+    return out
+
+
 def run(ctx):
-    configs = CONFIGS + (THOROUGH_EXTRA if ctx.tier == "thorough" else [])
+    thorough = ctx.tier == "thorough"
+    configs = CONFIGS + (THOROUGH_EXTRA if thorough else [])
+    respawn = RESPAWN + (RESPAWN_THOROUGH if thorough else [])
     ctx.rule = ("cases = %d command configurations (0..9 args, 0..7 env entries, arg/env vs args/envs batches, cwd, uid, gid, pgroup, 0..3 "
-                "pre-exec closures incl. one failing with / without errno, every stdio mode, a missing program) x {no fault; every caller-side "
-                "system call up to the read of the CLOEXEC pipe x {EINTR,EAGAIN,ENOMEM,EMFILE,EACCES,EIO, short read}; every child-side call "
-                "between fork and exec x {EBADF,EACCES,EPERM}; wait4 failing on the error paths}; distinct_nontrivial = distinct "
-                "(configuration, fault kinds, result, image verdict)" % len(configs))
+                "pre-exec closures incl. one failing with / without errno, every stdio mode incl. explicit Inherit, a missing program) x {no fault; "
+                "every caller-side system call up to the read of the CLOEXEC pipe x {EINTR,EAGAIN,ENOMEM,EMFILE,EACCES,EIO, short read}; every "
+                "child-side call between fork and exec x {EBADF,EACCES,EPERM}; wait4 failing on the error paths} + %d RESPAWN configurations: ONE "
+                "Command spawned from 2..%d times, unchanged or with further builder calls (args, env, streams, cwd, pgroup, closures) between the "
+                "spawns, every spawn measured and judged on its own, x {no fault; every single fault of every one of the spawns, the others "
+                "fault-free (a failed spawn followed by a clean one and vice versa)}; distinct_nontrivial = distinct (configuration, spawn number, "
+                "fault kinds, result, image verdict)" % (len(configs), len(respawn), max(len(Cfg(c).rounds) for c in respawn)))
     ctx.assumptions += [
         "built without the `start` feature (std-hosted harness): Environment::Inherit does not exist in this build, so inherit-mode is "
         "covered by the model (argv_envp_wellformed start=true, envSwitch) but not exercised on the implementation; "
         "the no-alloc `spawn` function likewise (it shares do_spawn)",
         "the exec target is the harness binary in --dump mode; its view (argv, environ, cwd, /proc/self/fd, pgid) is the observation of "
-        "what the child is executing; uid/gid are set to the caller's own ids (no privilege to change them)",
+        "what the child is executing; uid/gid are set to the caller's own ids (no privilege to change them); the harness gives itself three "
+        "distinct files as stdin/stdout/stderr so that an inherited stream is told from /dev/null and from a pipe; a MakePipe stream must be "
+        "the very pipe whose other end the caller is handed in Child (same pipe inode); every pre-exec closure leaves a mark when called",
         "the 8-byte message on the CLOEXEC pipe is delivered atomically and written only by the child (a forced read result of 8 garbage "
         "bytes is not injected); a write() failure in the child is not injected (no other channel exists)",
         "faults of the caller's read (other than EINTR) and wait4 after the fork are outside `steps up to and including exec`: required "
         "there: Err, and the child reaped unless wait4 itself was made to fail",
+        "respawn: observed, not proved, that the real Command is left unchanged by spawn (the model's spawn_preserves_config is what the "
+        "per-round agreement with runStages checks); a stream given as Stdio::RawFd is taken over (closed in the caller) by the first spawn "
+        "that reaches it (known finding C12 spawn_rawfd_late), so respawn configurations set every RawFd stream anew before each spawn — a "
+        "RawFd carried into a later spawn is excluded (NoRaw in the respawn theorems), not judged",
     ]
     ctx.trusted += ["harness/c13 + c12 casekit (sc-shim handler, inherited across fork; marker pipe; --dump exec target)"]
     ok = C.lean_prove(ctx, "TinyVerif.Props.C13", drivers=["drv_c13"])
@@ -287,27 +543,12 @@ def run(ctx):
     base = run_stream(ctx, exe, drv, "fault-free", base_cases, {})
     if not base:
         return
-    base_of = {c: parse(o) for c, o in zip(configs, base) if "=" in o}
+    base_of = {c: [parse(r) for r in o.split(" ;; ")] for c, o in zip(configs, base) if "=" in o}
     cases = []
     for c in configs:
         b = base_of.get(c)
-        if not b:
-            continue
-        pn = names(b["ptrace"])
-        jf = pn.index("fork") if "fork" in pn else len(pn) - 1
-        for k in range(0, min(jf + 3, len(pn))):
-            for e in PARENT_ERRNOS:
-                cases.append("%s %d:e%d" % (c, k, e))
-            if pn[k] == "read":
-                cases.append("%s %d:v3" % (c, k))
-        cn = [n for n in names(b["ctrace"]) if n not in ("exit", "returned")]
-        # `execve:?,execve:e2` (it came back) is one call
-        dedup = [n for i, n in enumerate(cn) if not (i > 0 and n == "execve" and cn[i - 1] == "execve")]
-        for k, n in enumerate(dedup):
-            if n == "write":
-                continue
-            for e in CHILD_ERRNOS + ([2] if n == "execve" else []):
-                cases.append("%s c%d:e%d" % (c, k, e))
+        if b:
+            cases += fault_cases(c, b[0], PARENT_ERRNOS, CHILD_ERRNOS)
     outs = run_stream(ctx, exe, drv, "one-fault", cases, base_of)
     # wait4 failing on the error paths
     lvl2 = []
@@ -317,6 +558,31 @@ def run(ctx):
             lvl2.append("%s,%d:e10" % (c, k))
     lvl2 = lvl2[:400 if ctx.tier == "quick" else 5000]
     run_stream(ctx, exe, drv, "wait4-fails", lvl2, base_of)
+    # ---- one Command, several spawns ----
+    rbase_cases = ["%s -" % c for c in respawn]
+    rbase = run_stream(ctx, exe, drv, "respawn-fault-free", rbase_cases, {})
+    rcases = []
+    if rbase:
+        pe, ce = (PARENT_ERRNOS, CHILD_ERRNOS) if thorough else ([4, 12], [9])
+        for c, o in zip(respawn, rbase):
+            cfg = Cfg(c)
+            if "=" not in o or len(o.split(" ;; ")) != len(cfg.rounds):
+                continue
+            base_of[c] = [parse(r) for r in o.split(" ;; ")]
+            for r in range(len(cfg.rounds)):
+                rcases += fault_cases(cfg.with_fault_round(r), base_of[c][r], pe, ce)
+        if not thorough:
+            # every (configuration, spawn, call) keeps at least its first errno; the rest is sampled per VERIF_SEED
+            first, rest = [], []
+            seen_pos = set()
+            for x in rcases:
+                pos = x.rsplit(":", 1)[0]
+                (rest if pos in seen_pos else first).append(x)
+                seen_pos.add(pos)
+            rcases = first + ctx.rng.shuffle(rest)[:max(0, 1500 - len(first))]
+        routs = run_stream(ctx, exe, drv, "respawn-one-fault", rcases, base_of)
+    else:
+        routs = []
     # builder: what the program saw vs the model's final argv/envp
     bl, bexp = [], []
     for c, o in zip(configs, base):
@@ -330,12 +596,15 @@ def run(ctx):
         if got != seen:
             ctx.extra.setdefault("disagreements", []).append({"case": c, "builder_model_input": l, "model": x, "model_says_program_sees": got, "program_saw": seen})
     ctx.extra["builder_cases"] = len(bl)
-    rc, bad, _ = C.run_filter(drv, ["spawn fixed=1", "builder fixed=1 start=0 q1", "frob"])
-    rc, badh, _ = C.run_filter([exe], ["zz -", "a1 x", "a1"])
+    rc, bad, _ = C.run_filter(drv, ["spawn fixed=1", "builder fixed=1 start=0 q1", "frob", "respawn fixed=1 start=0",
+                                    "respawn fixed=1 start=0 si=x before=- eintr=0 readerr=- waiterr=- cf=-",
+                                    "respawn fixed=1 start=0 before=- eintr=0 readerr=- waiterr=- cf=- /"])
+    rc, badh, _ = C.run_filter([exe], ["zz -", "a1 x", "a1", "a1,x0 -", "a1,fr1 -", "a1/x2 -", "io=np -"])
     if any(x != "bad-op" for x in bad + badh):
         ctx.violation({"kind": "malformed-accepted"}, {"driver": bad, "harness": badh}, no_input=True)
-    for c, o in list(zip(base_cases, base))[:3] + [x for x in zip(cases, outs) if " c" in x[0]][:3] + [x for x in zip(cases, outs) if "fork:e" in x[1]][:1]:
-        ctx.sample({"case": c, "implementation": o[:500]})
+    for c, o in (list(zip(base_cases, base))[:3] + [x for x in zip(cases, outs) if " c" in x[0]][:2] + [x for x in zip(cases, outs) if "fork:e" in x[1]][:1]
+                 + list(zip(rbase_cases, rbase))[3:5] + [x for x in zip(rcases, routs) if "fr1" in x[0] and " c" in x[0]][:2]):
+        ctx.sample({"case": c, "implementation": o[:700]})
     dis = ctx.extra.get("disagreements", [])
     if dis and not ctx.violations:
         ctx.broken.append({"correspondence": "C13", "first_disagreement": dis[0], "count": len(dis)})
@@ -356,11 +625,17 @@ def replay(ctx, rp):
         print(err)
         return 2
     cs, fault = case.split()
-    _, b, _ = C.run_filter([exe], ["%s -" % cs])
+    _, b, _ = C.run_filter([exe], ["%s -" % base_key(cs)])
     _, outs, _ = C.run_filter([exe], [case])
     o = outs[0] if outs else "no output"
-    cfg = Cfg(cs)
-    m, kinds = classify(cfg, fault, parse(b[0]) if b and "=" in b[0] else {"ptrace": "-"})
-    why = judge_with(cfg, fault, kinds, m, o)
-    print("case: %s\nimplementation: %s\nverdict: %s" % (case, o, why or "satisfies the property"))
-    return 1 if why else 0
+    base_rounds = [parse(r) for r in b[0].split(" ;; ")] if b and "=" in b[0] else None
+    cfg, rows, whole = judge_case(cs, fault, o, base_rounds)
+    print("case: %s" % case)
+    bad = 1 if whole else 0
+    if whole:
+        print("implementation: %s\nverdict: %s" % (o, whole))
+    for rc_, ro, f, m, kinds, why in rows:
+        print("spawn %d/%d (streams in force %s, fault %s)\n  implementation: %s\n  verdict: %s"
+              % (rc_.index + 1, len(cfg.rounds), "".join(rc_.io), f, ro, why or "satisfies the property"))
+        bad |= 1 if why else 0
+    return bad
